@@ -2,6 +2,8 @@
 // The containers are driven through their public API only; the access override is used to
 // READ the bucket array, chains, back-pointers, free list and blocks for the L-int dump.
 //   case <n> <hm|hs|pm> <b|B|h|H|i|u|l|q|p|s> <cap0> <cap1> …     one container variable per capacity
+//   <op> …   result | public state of every variable | internals of every variable
+//   .<op> …  the same operation "muted": result | sizes | .
 // Built with -DC02_CONST_ALL / -DC02_PTR_REMOVEBACK when the corresponding calls are well-formed (checks/C02.py probes).
 #include "vh.hpp"
 #define private public
@@ -126,15 +128,34 @@ template<typename K, int KIND> struct Runner
     printf("it=%ld:", r); KeyT<K>::print(keyOf(it)); printf(":%ld", valOf(it));
   }
 
-  static void slotOf(Tab& t, const Item* item)
+  // slot (block serial, index) of an item: the blocks of the table sorted by address (rebuilt per dump), binary search
+  struct BlockRef { const char* base; long serial; };
+  static BlockRef* g_blk;
+  static long g_nblk;
+  static int cmpBlock(const void* a, const void* b)
+  {
+    const char* x = ((const BlockRef*)a)->base; const char* y = ((const BlockRef*)b)->base;
+    return x < y ? -1 : x > y ? 1 : 0;
+  }
+  static void indexBlocks(Tab& t)
   {
     long nb = 0;
     for(ItemBlock* b = t.blocks; b; b = b->next) ++nb;
+    free(g_blk);
+    g_blk = (BlockRef*)malloc(sizeof(BlockRef) * (nb ? nb : 1));
+    g_nblk = nb;
     long j = 0;
-    for(ItemBlock* b = t.blocks; b; b = b->next, ++j) {
-      const char* base = (const char*)b + sizeof(ItemBlock);
-      if((const char*)item >= base && (const char*)item < base + 4 * sizeof(Item)) {
-        printf("%ld.%ld", nb - 1 - j, (long)(((const char*)item - base) / sizeof(Item)));
+    for(ItemBlock* b = t.blocks; b; b = b->next, ++j) { g_blk[j].base = (const char*)b + sizeof(ItemBlock); g_blk[j].serial = nb - 1 - j; }
+    qsort(g_blk, nb, sizeof(BlockRef), cmpBlock);
+  }
+  static void slotOf(Tab&, const Item* item)
+  {
+    long lo = 0, hi = g_nblk;        // last block whose base <= item
+    while(lo < hi) { long m = (lo + hi) / 2; if(g_blk[m].base <= (const char*)item) lo = m + 1; else hi = m; }
+    if(lo > 0) {
+      const char* base = g_blk[lo - 1].base;
+      if((const char*)item < base + 4 * sizeof(Item)) {
+        printf("%ld.%ld", g_blk[lo - 1].serial, (long)(((const char*)item - base) / sizeof(Item)));
         if(((const char*)item - base) % sizeof(Item)) printf("MISALIGNED");
         return;
       }
@@ -165,6 +186,7 @@ template<typename K, int KIND> struct Runner
   {
     long nb = 0;
     for(ItemBlock* b = t.blocks; b; b = b->next) ++nb;
+    indexBlocks(t);
     printf("%d:cap=%lu,d=%d,nb=%ld,B[", idx, (unsigned long)t.capacity, t.data ? 1 : 0, nb);
     bool first = true;
     if(t.data)
@@ -219,6 +241,21 @@ template<typename K, int KIND> struct Runner
   static void putValueRes(Tab& t, It it)
   {
     if constexpr(KIND == KSET) printf("-"); else printf("v=%ld", valOf(it));
+  }
+
+  // append / prepend return a REFERENCE: it must be the element stored under the key (the object find() leads to and
+  // operator* of the iterator yields), not a copy: same address, and a write through it is read back through find().
+  template<typename R> static void refIdentity(Tab& a, const K& k, R* r)
+  {
+    It f = a.find(k);
+    if(f == a.end()) { printf(" REF!"); return; }
+    if((const void*)r != (const void*)&*f) { printf(" REF!"); return; }
+    int* cell; if constexpr(KIND == KMAP) cell = r; else cell = &r->x;
+    int old = *cell;
+    *cell = old ^ 0x2a5a5a5a;
+    It g = a.find(k);
+    if(g == a.end() || valOf(g) != (long)(old ^ 0x2a5a5a5a)) printf(" REF!");
+    *cell = old;
   }
 
   static void constFrontBack(Tab& a, bool f)
@@ -331,13 +368,13 @@ template<typename K, int KIND> struct Runner
     } else if(!strcmp(o, "app")) {
       K k; KeyT<K>::parse(k, t.v[2]);
       int val = atoi(t.v[3]);
-      if constexpr(KIND == KMAP) { int& r = a.append(k, val); printf("v=%d", r); }
+      if constexpr(KIND == KMAP) { int& r = a.append(k, val); printf("v=%d", r); refIdentity(a, k, &r); }
       else if constexpr(KIND == KSET) { a.append(k); printf("-"); }
-      else { Val& r = a.append(k); printf("v=%d", r.x); }
+      else { Val& r = a.append(k); printf("v=%d", r.x); refIdentity(a, k, &r); }
     } else if(!strcmp(o, "pre")) {
       K k; KeyT<K>::parse(k, t.v[2]);
       int val = atoi(t.v[3]);
-      if constexpr(KIND == KMAP) { int& r = a.prepend(k, val); printf("v=%d", r); }
+      if constexpr(KIND == KMAP) { int& r = a.prepend(k, val); printf("v=%d", r); refIdentity(a, k, &r); }
       else if constexpr(KIND == KSET) { a.prepend(k); printf("-"); }
       else printf("pre");
     } else if(!strcmp(o, "rmk")) {
@@ -416,9 +453,20 @@ template<typename K, int KIND> struct Runner
     }
   }
 
+  // An operation written with a leading '.' ("muted") is executed like the plain one, its result is printed, but of the
+  // state only the sizes: histories that build tables of hundreds or thousands of entries dump the whole state (and
+  // the internals) at the unmuted operations only.
   static void op(long c, vh::Tok& t)
   {
     printf("%ld ", c);
+    if(t.v[0][0] == '.') {
+      ++t.v[0];
+      exec(t);
+      printf(" |");
+      for(int i = 0; i < n; ++i) printf(" %lu", (unsigned long)v[i]->size());
+      printf(" | .\n");
+      return;
+    }
     exec(t);
     printf(" |");
     for(int i = 0; i < n; ++i) { printf(" "); dumpObs(i, *v[i]); }
@@ -429,6 +477,8 @@ template<typename K, int KIND> struct Runner
 };
 template<typename K, int KIND> typename Runner<K, KIND>::Tab* Runner<K, KIND>::v[Runner<K, KIND>::MAXV];
 template<typename K, int KIND> int Runner<K, KIND>::n = 0;
+template<typename K, int KIND> typename Runner<K, KIND>::BlockRef* Runner<K, KIND>::g_blk = 0;
+template<typename K, int KIND> long Runner<K, KIND>::g_nblk = 0;
 
 typedef void (*opfn)(long, vh::Tok&);
 typedef void (*rstfn)();
